@@ -536,6 +536,11 @@ func TestC17_pool_vs_sequential(t *testing.T) {
 			}
 			par.params = seq.params
 		}
+		if seq.err != "" && par.err == "" && c.Known("C17/threadpool-drops-a-job-error-when-wait-wins-the-race") {
+			c.Class("known finding: error of a pooled job lost")
+			c.End()
+			return
+		}
 		if d := seq.same(par, 1e-7); d != "" {
 			t.Fatalf("%s: pooled and sequential results differ: %s", c.Desc(), d)
 		}
@@ -564,4 +569,19 @@ func TestKF_logistic_regression_race(t *testing.T) {
 		pool.Stop()
 	}
 	obs.KFStatus("C17/sparse-logistic-regression-workers-share-theta", false, "no race reported in 20 runs")
+}
+
+func TestKF_threadpool_lost_error(t *testing.T) {
+	defer runtime.GOMAXPROCS(runtime.GOMAXPROCS(4))
+	lost := 0
+	pool := threadpool.New(2, 1)
+	defer pool.Stop()
+	for i := 0; i < 200000 && lost == 0; i++ {
+		g := pool.NewJobGroup()
+		pool.AddJob(g, func(p threadpool.ThreadPool, erf func() error) error { return fmt.Errorf("job failed") })
+		if err := pool.Wait(g); err == nil {
+			lost++
+		}
+	}
+	obs.KFStatus("C17/threadpool-drops-a-job-error-when-wait-wins-the-race", lost > 0, fmt.Sprintf("lost errors: %d", lost))
 }
